@@ -7,6 +7,7 @@ import (
 	"os"
 	"path/filepath"
 	"sort"
+	"strings"
 	"sync"
 	"testing"
 
@@ -601,6 +602,17 @@ func (h *vC27History) run(nOps, invalidBias int) (applied map[string]int, err er
 			}
 		}
 	stamped:
+		// and a forbidden operation stamped so early that not a single record is visible to it (more than the look-ahead
+		// before the oldest record)
+		// (not pledges: by timestamp order nobody is pledging that early, see the note on backdated pledges above)
+		if n := len(h.model.hist); !allowed && op != "pledge" && n > 0 && !strings.Contains(intent, "stamped-before") && h.rng.Intn(7) == 0 {
+			const lookahead = uint64(12 * 3600 * 1e9)
+			if first := h.model.hist[0].Ts; first > lookahead+uint64(2e9) {
+				ts = first - lookahead - 1 - uint64(h.rng.Int63n(1e9))
+				intent += "+stamped-before-every-record"
+				r.Count("forbidden_operations_stamped_before_every_record", 1)
+			}
+		}
 		tx := h.buildTx(op, signer, payee)
 		parsed, perr := verifgen.Reparse(tx)
 		if perr != nil {
@@ -640,8 +652,13 @@ func (h *vC27History) run(nOps, invalidBias int) (applied map[string]int, err er
 		case panicked:
 			// neither applied nor refused with an error: the history must be untouched
 			step["store"] = fmt.Sprintf("panic: %v", pv)
-			r.Count("store_panics", 1)
-			r.Note("store_panic_site", verifkit.PanicSite(stack))
+			if strings.Contains(intent, "stamped-before-every-record") {
+				// with no record visible the store indexes an empty list: a refusal by stopping, the history stays as it was
+				r.Count("operations_stamped_before_every_record_refused_by_a_store_panic", 1)
+			} else {
+				r.Count("store_panics", 1)
+				r.Note("store_panic_site", verifkit.PanicSite(stack))
+			}
 			after = "panicked-" + op
 		case werr != nil:
 			step["store"] = "rejected"
